@@ -328,10 +328,12 @@ def readMarkupDeclaration (z : Z) : Nat × Z :=
   match readDoctype z with
   | (true, z) => (6, z)
   | (false, z) =>
+    -- a read error other than io.EOF cut the declaration short: bogus comment, no further readByte
+    if z.err ≠ .none then (5, z) else
     if z.allowCDATA then
       match readCDATA z with
       | (true, z) => (1, z)
-      | (false, z) => (5, readUntilCloseAngle z)
+      | (false, z) => if z.err ≠ .none then (5, z) else (5, readUntilCloseAngle z)
     else (5, readUntilCloseAngle z)
 
 /-! ### tags -/
@@ -465,6 +467,18 @@ def endTagOpen (z : Z) : Nat × Z :=
     if z.err ≠ .none then (0, z) else (3, z)
   else (5, readUntilCloseAngle (unread z))
 
+/-- `StartTagToken` (2) / `EndTagToken` (3) / `CommentToken` (5) / 0 = the `<` is text -/
+def tokenKind (c : Nat) : Nat :=
+  if isLetter c then 2 else if c == 47 then 3 else if c == 33 ∨ c == 63 then 5 else 0
+
+/-- the part of `Next` after a token opener `<c` was recognised -/
+def dispatch (kind c : Nat) (z : Z) : Nat × Z :=
+  if z.rawStart < z.rawEnd - 2 then (1, { z with rawEnd := z.rawEnd - 2, dataEnd := z.rawEnd - 2 }) else
+  if kind = 2 then readStartTag z
+  else if kind = 3 then endTagOpen z
+  else if c == 33 then readMarkupDeclaration z
+  else (5, readUntilCloseAngle (unread z))
+
 def mainLoop : Nat → Z → Nat × Z
   | 0, z => (0, outOfFuel z)
   | f + 1, z =>
@@ -473,29 +487,26 @@ def mainLoop : Nat → Z → Nat × Z
     if c ≠ 60 then mainLoop f z else
     let (c, z) := readByte z
     if z.err ≠ .none then finishText z else
-    let kind : Nat := if isLetter c then 2 else if c == 47 then 3 else if c == 33 ∨ c == 63 then 5 else 0
-    if kind = 0 then mainLoop f (unread z) else
-    if z.rawStart < z.rawEnd - 2 then (1, { z with rawEnd := z.rawEnd - 2, dataEnd := z.rawEnd - 2 }) else
-    if kind = 2 then readStartTag z
-    else if kind = 3 then endTagOpen z
-    else if c == 33 then readMarkupDeclaration z
-    else (5, readUntilCloseAngle (unread z))
+    if tokenKind c = 0 then mainLoop f (unread z) else dispatch (tokenKind c) c z
+
+/-- the first three assignments of `Next` -/
+def startToken (z : Z) : Z := { z with rawStart := z.rawEnd, dataStart := z.rawEnd, dataEnd := z.rawEnd }
+
+/-- the `if z.rawTag != ""` block of `Next` (plaintext: read to the end; else readRawOrRCDATA) -/
+def rawTextAttempt (z : Z) : Z :=
+  if z.rawTag = plaintextTag then
+    let z := plaintextLoop (z.inp.size + 2) z
+    { z with dataEnd := z.rawEnd }
+  else readRawOrRCDATA z
 
 /-- `Tokenizer.Next`: returns the token type. -/
 def next (z : Z) : Nat × Z :=
-  let z := { z with rawStart := z.rawEnd, dataStart := z.rawEnd, dataEnd := z.rawEnd }
+  let z := startToken z
   if z.err ≠ .none then (0, z) else
-  let pre : Option Z × Z :=
-    if z.rawTag ≠ [] then
-      let z := if z.rawTag = plaintextTag then
-          let z := plaintextLoop (z.inp.size + 2) z
-          { z with dataEnd := z.rawEnd }
-        else readRawOrRCDATA z
-      if z.dataEnd > z.dataStart then (some z, z) else (none, z)
-    else (none, z)
-  match pre with
-  | (some z, _) => (1, z)
-  | (none, z) => mainLoop (z.inp.size + 2) z
+  if z.rawTag ≠ [] then
+    let z := rawTextAttempt z
+    if z.dataEnd > z.dataStart then (1, z) else mainLoop (z.inp.size + 2) z
+  else mainLoop (z.inp.size + 2) z
 
 /-- `NewTokenizerFragment(r, contextTag)` + `SetMaxBuf` + `AllowCDATA`. -/
 def newTokenizer (inp : List Nat) (ctx : List Nat) (maxBuf : Nat) (cdata : Bool) (finalErr : Err) : Z :=
